@@ -109,13 +109,23 @@ def judge(script, sent, r):
     return None
 
 
+def delayed_state(script, idx):
+    """Delayed compression (zlib@openssh.com) at script index idx: "no" = another compression setting is active,
+    "pre-auth" = negotiated but authentication has not happened yet (nothing is compressed), "post-auth" = in use."""
+    cur, _ = active_suite(script, idx)
+    if cur is None or cur[3] != P.DELAYED:
+        return "no"
+    return "post-auth" if any(it[0] == "auth" for it in script[:idx + 1]) else "pre-auth"
+
+
 def report(acc, part, direction, script, read, verdict):
     clause, idx, info = verdict
-    cur, nsw = active_suite(script, idx if idx is not None else len(script) - 1)
+    at = idx if idx is not None else len(script) - 1
+    cur, nsw = active_suite(script, at)
     cls = P.framing_class(cur[1], cur[2]) if cur else "clear"
     z = ":zlib" if cur and cur[3] != "none" else ""
     dims = {"framing": cls, "zlib": bool(z), "read": env_of(read), "after-key-switch": nsw > 1,
-            "rekey-pending": bool(read.get("rekey_after"))}
+            "rekey-pending": bool(read.get("rekey_after")), "delayed-compression": delayed_state(script, at)}
     if len(script) > 60:      # core.jsonable truncates long lists: store the generator instead
         case = {"dir": direction, "gen": "seq200", "suite": list(script[0][1:4]), "read": read}
     else:
@@ -286,8 +296,49 @@ def do_switch(item, acc):
                                  "both directions; whole and byte-wise reads"})
 
 
+DELAYED_LENGTHS = (9, 300, 17)
+
+
+def delayed_scripts(a, b):
+    """One switch a->b after k messages, crossed with where authentication completes: never, or at every position of
+    the script after the first key switch (before/after each message, right before / right after the second switch).
+    Three messages are enough for one before authentication, one between authentication and the key switch and
+    one after the key switch (and every other order)."""
+    L = DELAYED_LENGTHS
+    for k in range(len(L)):
+        m = msgs(L, "alt", salt0=110)
+        base = [sw(a)] + m[:k] + [sw(b)] + m[k:]
+        yield (k, None), base
+        for j in range(1, len(base) + 1):
+            yield (k, j), base[:j] + [("auth",)] + base[j:]
+
+
+def do_delayed(item, acc):
+    """Delayed compression (zlib@openssh.com) x authentication event x key switch."""
+    _, tier, a, b = item
+    for direction in ("c2s", "s2c"):
+        for (k, j), script in delayed_scripts(a, b):
+            stream, chunks, sent = P.transmit(direction, script)
+            for read, shape in (({}, "whole"), ({"max_chunk": 1}, "bytewise")):
+                _, _, r = run_case(direction, script, read, stream, sent)
+                acc.ev()
+                v = judge(script, sent, r)
+                if v:
+                    report(acc, "delayed", direction, script, read, v)
+                else:
+                    # auth relative to the switch: none / before / after; and whether messages follow on each side
+                    rel = "none" if j is None else ("before-switch" if j <= k + 1 else "after-switch")
+                    acc.nt(("delayed", a, b, k, rel, j, shape))
+            acc.count("key_switches_executed", 2)
+            acc.count("auth_events_executed", 0 if j is None else 1)
+    if a == b and a[:2] == CLASS_REPS[0]:
+        acc.sample({"part": "delayed", "from": a, "to": b, "lengths": list(DELAYED_LENGTHS),
+                    "positions": "switch after k=0..2 messages x authentication never / at each of the 5 later script "
+                                 "positions; both directions; whole and byte-wise reads"})
+
+
 def run_item(item, acc):
-    {"seq": do_seq, "frag": do_frag, "switch": do_switch}[item[0]](item, acc)
+    {"seq": do_seq, "frag": do_frag, "switch": do_switch, "delayed": do_delayed}[item[0]](item, acc)
 
 
 def items_for(tier):
@@ -302,6 +353,16 @@ def items_for(tier):
     for i, a in enumerate(classes):
         for j, b in enumerate(classes):
             items.append(("switch", tier, a, b, True))
+    # delayed compression: for the class representatives every (compression before, compression after) re-key in
+    # which at least one side is zlib@openssh.com, with the cipher/MAC kept; every ordered pair of representatives and
+    # every other cipher x MAC pair re-keyed to itself with delayed compression on both sides
+    D = P.DELAYED
+    pairs = [((c, m, za), (c, m, zb)) for (c, m) in reps for za in P.COMPRESSIONS_ALL for zb in P.COMPRESSIONS_ALL
+             if D in (za, zb)]
+    pairs += [(ra + (D,), rb + (D,)) for ra in reps for rb in reps if ra != rb]
+    pairs += [((c, m, D),) * 2 for c in P.CIPHERS for m in P.MACS if (c, m) not in reps]
+    for a, b in pairs:
+        items.append(("delayed", tier, a, b))
     return items
 
 
@@ -320,7 +381,8 @@ def main(tier):
     ck.merge(core.pmap(items, run_item))
     P.regroup(ck, {"framing": {"ctr", "cbc", "3des", "gcm", "ctr+etm", "cbc+etm", "3des+etm"},
                    "zlib": {True, False}, "read": {"whole", "bytewise", "split", "timeout", "timeout+bytewise"},
-                   "after-key-switch": {True, False}, "rekey-pending": {True, False}})
+                   "after-key-switch": {True, False}, "rekey-pending": {True, False},
+                   "delayed-compression": {"no", "pre-auth", "post-auth"}})
     ck.extra["bound"] = {
         "suites": len(P.all_suites()), "directions": 2,
         "sequence_alphabet": list(S6), "max_sequence_len": 2 if tier == "quick" else 3,
@@ -329,6 +391,7 @@ def main(tier):
         "timeouts_per_stream": 1 if tier == "quick" else 2,
         "receiver_rekey_thresholds": list(REKEY_AFTER[:1] if tier == "quick" else REKEY_AFTER),
         "switch_classes": len(CLASS_REPS_T) * 2,
+        "delayed_compression_pairs": len([i for i in items if i[0] == "delayed"]),
         "work_items": len(items),
     }
     return ck.finish()
